@@ -171,7 +171,7 @@ theorem vApply_agrees (f : Arr → Arr) (b : Option Nat) (hb : ∀ k, b = some k
       (applyT expectedDispatch f b a).map argPV := by
   cases a with
   | shape s =>
-    rw [argPV, vApply_shape _ _ _ _ h, applyBatchedE_ok f b hb, mapShapeE_ok, apply_batched_expected]
+    rw [argPV, vApply_shape _ _ _ _ h, applyBatchedE_ok f b hb, mapShapeE_ok, apply_batched_expected f b hb]
     rfl
   | array x =>
     rw [argPV, vApply_array]
@@ -185,7 +185,7 @@ theorem vApply_expected (f : Arr → Arr) (b : Option Nat) (hb : ∀ k, b = some
     vApply coreMethods expectedDispatch fuel (okFn f) (.shape s) (batchInt b) =
       .ok (.shape (mapShape (applyBatched f b) s)) := by
   have := vApply_agrees f b hb (.shape s) fuel h
-  rw [argPV, apply_batched_expected] at this
+  rw [argPV, apply_batched_expected f b hb] at this
   exact this
 
 /-! ### `batch_size ≤ 0` -/
